@@ -23,6 +23,8 @@ PROPS = ("C07",)
 def plan(tier, seed):
     q = tier == "quick"
     specs = ec.plan_e2e(seed, 7, MIX, 110 if q else 1100, nwcap=12 if q else 24)
+    if not q:
+        specs += ec.fixture_specs()
     for p in range(2):
         specs.append(dict(name="helper-%d" % p, mode="interp", what="helper", part=p, parts=2, full=not q, seed=[seed, 77, p]))
     for p in range(4 if q else 8):
@@ -133,7 +135,7 @@ def check_pair(res, case, jcase):
 
 
 def run_shard(spec, res):
-    if spec["what"] == "e2e":
+    if spec["what"] in ("e2e", "fixture"):
         ec.run_e2e_shard(spec, res, PROPS, nontrivial)
     elif spec["what"] == "helper":
         run_helper(spec, res)
